@@ -723,7 +723,9 @@ func (eng *Engine) VerifyFunc(key string) (rep *FuncReport) {
 	rep.Status = "ok"
 	abs := ex.abstractSpecs()
 	for _, o := range ex.obligs {
-		if !o.NoAbstract {
+		if o.AbstractOnly != nil {
+			o.Abstract = o.AbstractOnly
+		} else if !o.NoAbstract {
 			o.Abstract = abs
 		} else if abs["sm3_cf"] {
 			o.Abstract = map[string]bool{"sm3_cf": true} // the compression function itself stays opaque
